@@ -400,6 +400,15 @@ func Scenarios(thorough bool) []Scenario {
 	held = append(held, ep(4)...)
 	held = append(held, S("Y"), R("m3", "X", 1), S("X"))
 	var long []Scenario
+	// a box that has been idle for n epochs (no send, hence no collector run), then a first send on
+	// a topic and a message arriving afterwards: the topic stays started
+	for _, n := range []int{5, 6, 7, 8, 12, 13} {
+		var pre []Step
+		for i := 0; i < n; i++ {
+			pre = append(pre, Step{Kind: "tick"})
+		}
+		long = append(long, Scenario{Name: fmt.Sprintf("s14-idle-%d-epochs-then-first-send", n), Pre: pre, Threads: [][]Step{{R("m0", "X", 1), S("X"), R("m1", "X", 1), S("Y"), R("m2", "X", 1)}}, Bound: 0})
+	}
 	long = append(long, Scenario{Name: "s13-held-topic-in-use-survives-gc", Threads: [][]Step{held}, Bound: 0})
 	for e := 5; e <= 20; e++ {
 		long = append(long, Scenario{Name: fmt.Sprintf("s12-long-lived-topic-%d-epochs", e), Threads: [][]Step{longLived(e)}, Bound: 0})
